@@ -473,7 +473,10 @@ class Run:
         try:
             self.step_mapping(op, w)
         except Mismatch as m:
-            if self.defect_possible.get(t) and m.fp != "C05:buffered:multi-handle-lost-update":
+            # (an assignment from another live document reads that document through one of its handles: when
+            # the dependency's flush defect may have struck the SOURCE, a wrong value arrives here)
+            via_source = op[0] == "assign_from" and self.defect_possible.get(op[3])
+            if (self.defect_possible.get(t) or via_source) and m.fp != "C05:buffered:multi-handle-lost-update":
                 raise Mismatch("C05", "C05:buffered:multi-handle-lost-update",
                                "several handles of one document were used inside a buffered block: " + m.msg,
                                "C05:buffered:multi-handle-lost-update")
